@@ -26,7 +26,7 @@ PROPERTY = 'C06'
 ENGINE = 'E1 domain'
 LEVEL = 'model_checking'
 LEVEL_TEXT = (
-    'Bounded exhaustive enumeration: all ordered pairs of a fixed set of integers, singles and doubles (quick ~1.6k, '
+    'Bounded exhaustive enumeration: all ordered pairs of a fixed set of integers, singles and doubles (quick ~1.2k, '
     'thorough ~8k values: boundary integers, rounding-critical mantissas with their adjacent representable values at '
     'the extreme, middle and integer-boundary exponents, both signs, singles widened to double with their double '
     'neighbours, integers as floats, every kind of non-canonical zero) under all six relational operators on the real '
@@ -73,12 +73,12 @@ def value_set(quick):
     m24 = _with_neighbours(mbf.mant_set(24, 1), S)
     m56 = _with_neighbours(mbf.mant_set(56, 1), D)
     if quick:
-        m24 = mbf.pick(m24, 34)
-        m56 = mbf.pick(m56, 30)
+        m24 = mbf.pick(m24, 26)
+        m56 = mbf.pick(m56, 22)
     else:
         m56 = mbf.pick(m56, 120)
     out = set((2, struct.pack('<h', i)) for i in ints)
-    widen = mbf.pick(m24, 10 if quick else 24)
+    widen = mbf.pick(m24, 8 if quick else 24)
     for neg in (False, True):
         for e in exps:
             for m in m24:
@@ -205,11 +205,11 @@ def work_pairs(shard):
 
 def core_values(quick):
     S, D = mbf.SNG, mbf.DBL
-    ints = [-32768, -32767, -256, -255, -1, 0, 1, 255, 256, 32767] if quick else \
+    ints = [-32768, -256, -1, 0, 1, 255, 32767] if quick else \
         [-32768, -32767, -16384, -257, -256, -255, -129, -128, -127, -2, -1, 0, 1, 2, 127, 128, 255, 256, 257,
          16383, 16384, 32766, 32767]
     out = [(2, struct.pack('<h', i)) for i in ints]
-    for i in ((-32768, -1, 1, 256, 32767) if quick else (-32768, -32767, -256, -1, 1, 2, 255, 256, 257, 32767)):
+    for i in ((-32768, -1, 256) if quick else (-32768, -32767, -256, -1, 1, 2, 255, 256, 257, 32767)):
         for fmt in (S, D):
             b = mbf.int_to_fmt(fmt, i)
             neg, e, m = fmt.unbytes(b)
